@@ -168,7 +168,8 @@ func c08Ranges(tier string) []c08Range {
 	out := []c08Range{{c08Points[0], c08Points[len(c08Points)-1]}}
 	for i, f := range c08Points {
 		for j := i; j < len(c08Points); j++ {
-			if tier != "thorough" && !(i%3 == 0 || j == i || j == i+1 || j == len(c08Points)-1) {
+			last := len(c08Points) - 1
+			if tier != "thorough" && !((j == i && i%2 == 0) || (j == i+1 && i%4 == 1) || (i == 0 && j%4 == 3) || (j == last && i%4 == 0 && i > 0)) {
 				continue
 			}
 			if i == 0 && j == len(c08Points)-1 {
@@ -266,7 +267,7 @@ var _ = fmt.Sprint
 func init() {
 	register("C08", &explore.Scenario{
 		ID: "C08", Name: "query engine vs reference aggregation", Level: "exploration",
-		Rule:  "cases = 4 database shapes (v4-only, v6-only, mixed incl. a v6 address aliasing 10.0.0.1, mixed + v6 address with 12 trailing zero bytes; 2 interfaces, 3 days incl. month change, 5 write-outs) x 20 query types (all 15 attribute subsets + 5 named types); per case deviations: time label, interface argument (4), condition (22 hand-written text/predicate pairs: leaves, !=, nets, and/or/not, v4|v6, ip|non-ip), direction filter (5), time range (quick: 40 of the 120 pairs over 15 boundary points; thorough: all), low-memory; all combinations of <= bound deviating dimensions. Oracle: reference aggregation in a Go map (rows, Totals, Hits.Total). non-trivial = non-empty result under a condition, direction filter or restricted range, distinct by full query tuple",
+		Rule:  "cases = 4 database shapes (v4-only, v6-only, mixed incl. a v6 address aliasing 10.0.0.1, mixed + v6 address with 12 trailing zero bytes; 2 interfaces, 3 days incl. month change, 5 write-outs) x 20 query types (all 15 attribute subsets + 5 named types); per case deviations: time label, interface argument (4), condition (22 hand-written text/predicate pairs: leaves, !=, nets, and/or/not, v4|v6, ip|non-ip), direction filter (5), time range (quick: 18 of the 120 pairs over 15 boundary points - every second point alone, adjacent pairs, prefixes and suffixes; thorough: all), low-memory; all combinations of <= bound deviating dimensions. Oracle: reference aggregation in a Go map (rows, Totals, Hits.Total). non-trivial = non-empty result under a condition, direction filter or restricted range, distinct by full query tuple",
 		Cases: func(t string) int { n, _ := c08QueryTypes(); return len(c08Shapes()) * len(n) },
 		Bound: func(t string) int {
 			if t == "thorough" {
